@@ -12,7 +12,7 @@ import numpy as np
 
 from .. import common, pipeline
 from ..gen import pdbfmt, workload
-from ..mon import match
+from ..mon import match, pkastub
 from ..ref import ffmap, states
 from ..ref import topology as topo
 from ..run import Res
@@ -46,6 +46,9 @@ def cases(tier, seed):
                 o.append("--neutralc")
         if rng.random() < 0.15:
             o.append("--noopt")
+        if rng.random() < 0.15:
+            # pKa route (stubbed pKa source, random table): titrated states change the residues' formal charges
+            o += pkastub.titration_opts(rng)
         return o
 
     for rep in range(1 if tier == "quick" else 40):
@@ -112,7 +115,7 @@ def cyclic_text(d, rng):
     return t, items, truth, dist
 
 
-def check_run(res, spec, m, r, scheme):
+def check_run(res, spec, m, r, scheme, titr_by_ord=None):
     opts = states.Opts(spec["opts"])
     model = ffmap.builtin(spec["ff"])
     pairs = match.match_residues(r.bio, m["items"], m["truth"])
@@ -122,6 +125,7 @@ def check_run(res, spec, m, r, scheme):
     pq = pipeline.parse_pqr(r.pqr_text)
     line_of = {id(a): ln for a, ln in zip(written, pq)} if len(pq) == len(written) else {}
     expected_total, complete = 0.0, True
+    tord = {id(t): k for k, t in enumerate(m["truth"])}
     strands = defaultdict(lambda: {"q": 0.0, "p": 0, "ok": True, "n": 0})
     for residue, tr in pairs:
         if tr is None:
@@ -132,7 +136,8 @@ def check_run(res, spec, m, r, scheme):
         if id(residue) in ambiguous:
             complete = False
             continue
-        ffn = states.ff_name(tr, names, opts, ss)
+        titr = (titr_by_ord or {}).get(tord[id(tr)], ())
+        ffn = states.ff_name(tr, names, opts, ss, titr)
         # "fully parameterised" is judged on the outcome: every atom of the residue received parameters
         full = ffn is not None and all(a.ffcharge is not None and id(a) not in missed for a in residue.atoms)
         q_obj = sum(a.ffcharge for a in residue.atoms if a.ffcharge is not None and id(a) not in missed)
@@ -167,11 +172,13 @@ def check_run(res, spec, m, r, scheme):
             res.count("residues_not_fully_parameterised")
             complete = False
             continue
-        want = states.formal_charge(tr, names, opts, ss)
+        want = states.formal_charge(tr, names, opts, ss, titr)
+        if titr:
+            res.count("titrated_residues_checked")
         res.count("residues_checked")
         if pos != "I":
             res.count("terminal_residues_checked")
-        st = states.side_state(tr, names, ss)
+        st = states.side_state(tr, names, ss, titr)
         res.cell(spec["ff"], st, pos)
         if pos != "I" or st != tr["base"] or scheme:
             res.nt(spec["ff"], st, pos, scheme or "-")
@@ -216,15 +223,18 @@ def run_case(spec):
     else:
         m = workload.materialise(spec)
         scheme = m["meta"].get("scheme", "")
-    r = pipeline.run(m["text"], spec["opts"], workname="c02")
+    with pkastub.for_opts(spec["opts"], m["truth"], spec["seed"]) as titr:
+        r = pipeline.run(m["text"], spec["opts"], workname="c02")
     res.count("runs")
+    if titr is not None:
+        res.count("pka_route_runs")
     if not r.ok:
         res.count("runs_failed")
         msg = " | ".join(mm for lv, _n, mm in r.log if lv >= 40)[:160]
         res.note(f"{spec['ff']} {spec['opts']} {scheme} failed: {type(r.exc).__name__} {str(r.exc)[:60]} {msg}")
         return res
     res.count("runs_ok")
-    check_run(res, spec, m, r, scheme)
+    check_run(res, spec, m, r, scheme, pkastub.observed_titration(r, m) if titr is not None else None)
     res.sample = {"ff": spec["ff"], "opts": spec["opts"], "scheme": scheme,
                   "residues": [(t["resn"], t["pos"]) for t in m["truth"]][:10]}
     return res
